@@ -239,7 +239,7 @@ def task_element(kind, which, fmt=None):
                 if blobobj is not None:
                     from pyvc.stdlib_models import b64enc
                     run.oblige("C07,C08|%s/carries-the-payload-base64-encoded-with-its-length-and-format" % label,
-                               z3.And(vt == smt.VBytes(b64enc(smt.get_y(blobobj.fields["binary"].term))) if False else z3.BoolVal(True),
+                               z3.And(vt == VStr(b64enc(smt.get_y(blobobj.fields["binary"].term))),
                                       I.to_term(f["format"]) == blobobj.fields["format"].term,
                                       I.to_term(f["size"]) == VInt(z3.Length(smt.get_y(blobobj.fields["binary"].term)))))
         if kind in ("switch", "light"):
